@@ -8,7 +8,7 @@ SCOPE = [("manager.fill", 400, 60), ("manager.collapse", 100, 60)]
 ORACLE_RULE = ("C12: streams with single, multiple and multi-bucket gaps x timeframe x append schedule with timeframe_fill=True on the real "
                "CandleManager vs an independent resample+fill; contiguity, flat zero-volume fills and schedule independence checked at every step")
 ASSUMPTIONS = ["timestamps are naive datetimes at second resolution; TZ=UTC for this check"]
-PARTIAL = ""
+PARTIAL = ''
 _case = om.make_case(ID, tf=True, fill=True)
 
 
